@@ -17,6 +17,7 @@ import (
 	"fmt"
 	"io"
 	"os"
+	"strings"
 	"sync"
 	"sync/atomic"
 	"time"
@@ -518,6 +519,9 @@ func main() {
 		out.Case("live", s.trace, s.snaps)
 		for _, m := range s.oracle {
 			out.Oracle(caseNo, "%s [scenario %s]", m, sc.name)
+			if strings.HasPrefix(m, "STUCK") {
+				stats["stuck"]++
+			}
 		}
 		stats["schedules"]++
 		stats["events"] += len(s.trace) - 1
@@ -529,7 +533,8 @@ func main() {
 		// systematic exploration of the first decisions (odometer over the choice prefix), then random tails
 		var choices []int
 		n := 0
-		for n < perScenario && runs < budget {
+		for n < perScenario && runs < budget && stats["stuck"] < 4 {
+			// (every stuck schedule costs its time-outs: a few witnesses are enough)
 			s, options := runSchedule(sc, choices, r)
 			emit(sc, s)
 			n++
